@@ -29,6 +29,15 @@ IsFuel(v)  == v.t = "err" /\ v.m = "FUEL"
 IsTrue(v)  == v.t = "bool" /\ v.v
 IsFalse(v) == v.t = "bool" /\ ~v.v
 
+\* names of the extension functions: found before any variable, never assignable.  ExtSigs (below) gives the ones whose
+\* meaning is modelled; calling another one is outside the modelled fragment.
+ExtModelled == {"sqrt", "floor", "ceil", "trunc", "round", "runes", "rune_len", "split", "join",
+                "trim", "trim_left", "trim_right", "min", "max", "int"}
+ExtNameSet == ExtModelled \cup
+              {"acos", "asin", "atan", "atan2", "base64", "cos", "defun", "eof", "eval", "exec", "exp", "format", "json",
+               "json_go", "ln", "load", "log10", "pow", "rand", "read", "regexp", "regsub", "run", "save", "sin", "sleep",
+               "sprintf", "tan", "type", "unjson", "width"}
+
 \* ---------------------------------------------------------------- environments
 RECURSIVE FindEnv(_, _, _)
 FindEnv(st, e, name) ==
@@ -56,6 +65,7 @@ SetVar(st, name, val, create) ==
   LET g == GetVar(st, name) IN
   IF IsConstName(name) /\ g[1] /\ ~Eq(g[2], val)
   THEN R(Err("attempt to change constant"), st)
+  ELSE IF name \in ExtNameSet THEN R(Err("attempt to change internal function"), st)
   ELSE IF create THEN R(val, PutIn(st, st.cur, name, val))
   ELSE LET e == FindEnv(st, st.cur, name) IN
        R(val, PutIn(st, IF e = 0 THEN st.cur ELSE e, name, val))
@@ -245,6 +255,7 @@ ExtSigs ==
    max   |-> [mn |-> 1, mx |-> -1, ty |-> <<"any">>],
    int   |-> [mn |-> 1, mx |-> 1,  ty |-> <<"any">>]]
 ExtNames == DOMAIN ExtSigs
+ASSUME ExtNames = ExtModelled
 Ext(name) == [t |-> "ext", n |-> name]
 DefaultTrimSet == " \r\n\t"
 
@@ -545,7 +556,7 @@ EvalI(n, st0) ==
     [] n.k = "str"   -> R(Str(n.v), st)
     [] n.k = "cmt"   -> R(Nil, st)
     [] n.k = "block" -> EvalBlock(n.s, st)
-    [] n.k = "id"    -> (IF n.n \in ExtNames THEN R(Ext(n.n), st)
+    [] n.k = "id"    -> (IF n.n \in ExtNameSet THEN R(Ext(n.n), st)
                          ELSE LET g == GetVar(st, n.n) IN
                               IF g[1] THEN R(g[2], st) ELSE R(Err("identifier not found"), st))
     [] n.k = "brk"   -> R(Ctl("break", Nil), st)
@@ -575,10 +586,12 @@ EvalI(n, st0) ==
                          IF IsErr(f.v) THEN f
                          ELSE LET a == EvalList(n.a, 1, <<>>, f.st) IN
                               IF IsErr(a.v) THEN a
-                              ELSE IF f.v.t = "ext" THEN R(ApplyExt(f.v.n, a.v.e), a.st)
+                              ELSE IF f.v.t = "ext" THEN
+                                   R(IF f.v.n \in ExtModelled THEN ApplyExt(f.v.n, a.v.e) ELSE Err("extension outside the modelled fragment"), a.st)
                               ELSE IF f.v.t = "lib" THEN
                                    (IF Len(a.v.e) # 1 THEN R(Err("wrong number of arguments"), a.st)
-                                    ELSE R(IF f.v.n = "abs" THEN AbsOf(a.v.e[1]) ELSE KeysOf(a.v.e[1]), a.st))
+                                    ELSE R(CASE f.v.n = "abs" -> AbsOf(a.v.e[1]) [] f.v.n = "keys" -> KeysOf(a.v.e[1])
+                                             [] OTHER -> Err("function outside the modelled fragment"), a.st))
                               ELSE IF f.v.t # "func" THEN R(Err("not a function"), a.st)
                               ELSE Apply(f.v, a.v.e, a.st))
     [] n.k = "arr"   -> EvalList(n.e, 1, <<>>, st)
@@ -604,6 +617,7 @@ EvalI(n, st0) ==
 \* ---------------------------------------------------------------- sessions
 RootVars == ("nil" :> Nil) @@ ("null" :> Nil)
             @@ ("abs" :> [t |-> "lib", n |-> "abs"]) @@ ("keys" :> [t |-> "lib", n |-> "keys"])
+            @@ ("printf" :> [t |-> "lib", n |-> "printf"]) @@ ("str" :> [t |-> "lib", n |-> "str"]) @@ ("log2" :> [t |-> "lib", n |-> "log2"])
             @@ ("PI" :> Flt("400921fb54442d18")) @@ ("E" :> Flt("4005bf0a8b145769"))
             @@ ("Inf" :> Flt("7ff0000000000000")) @@ ("NaN" :> Flt("7ff8000000000001"))
 InitState(fuel) ==
